@@ -21,10 +21,10 @@ var SrvFields = []Field{
 	{"proto", []string{"nil", "all", "b", "none", "custom-all", "custom-b", "sel-equal-b", "sel-slice-b", "sel-bigslice-b"}},
 	{"ext", []string{"nil", "all", "none", "custom-all", "negotiate-echo", "negotiate-decline", "negotiate-error", "negotiate-pmd", "negotiate-error-x", "negotiate-error-y", "custom-alias"}},
 	{"header", []string{"nil", "one", "bytes", "http", "func-long", "func-long-fails"}},
-	{"onrequest", []string{"nil", "ok", "err", "reject403", "err-list"}},
-	{"onhost", []string{"nil", "ok", "err", "reject403", "err-list"}},
-	{"onheader", []string{"nil", "ok", "err", "reject403", "err-list"}},
-	{"onbefore", []string{"nil", "ok", "err", "reject403", "ok-header", "err-list"}},
+	{"onrequest", []string{"nil", "ok", "err", "reject403", "err-list", "err-bytes"}},
+	{"onhost", []string{"nil", "ok", "err", "reject403", "err-list", "err-bytes"}},
+	{"onheader", []string{"nil", "ok", "err", "reject403", "err-list", "err-bytes"}},
+	{"onbefore", []string{"nil", "ok", "err", "reject403", "ok-header", "err-list", "err-bytes"}},
 }
 
 type SrvCfg []int
@@ -66,9 +66,15 @@ func cbErr(kind string) error {
 		return RejectErr()
 	case "err-list":
 		return ErrList{"first problem", "second problem"}
+	case "err-bytes":
+		return ErrBytes
 	}
 	return nil
 }
+
+// ErrBytes is an error whose text echoes bytes received from the peer: not valid UTF-8 in places,
+// multi-byte characters in others. The body of the error response is that text, byte for byte.
+var ErrBytes = errors.New("refused: header value \"\xff\xfe\xc3(\x80\" is not acceptable \u2014 caf\u00e9 \u20ac")
 
 // ErrList is an error whose dynamic type is not comparable (a slice), as validation code
 // that collects several problems returns.
@@ -266,7 +272,7 @@ func (c SrvCfg) Expect(r Req) SrvExpect {
 	e := SrvExpect{CallbackStatuses: map[int]bool{}}
 	status := func(kind string) {
 		switch kind {
-		case "err", "err-list":
+		case "err", "err-list", "err-bytes":
 			e.CallbackStatuses[500] = true
 		case "reject403":
 			e.CallbackStatuses[403] = true
